@@ -117,6 +117,16 @@ def gen(ctx):
                     add("chain", N, prec, "x", [small_mat(rnd, N) for _ in range(k)], small_vec(rnd, N))
             for _ in range(300 if q else 6000):
                 add("layer", N, prec, "x", [small_mat(rnd, N)], small_vec(rnd, N))
+            # structured linear parts through the layer: every scaled permutation (cycles included), with a translation
+            import itertools as _it
+            for perm in _it.permutations(range(N)):
+                for _ in range(1 if q else 4):
+                    sc = [rnd.choice([1, -1, 2, 3, -2]) for _ in range(N)]
+                    m = [0] * (N * (N + 1))
+                    for i in range(N):
+                        m[i * (N + 1) + perm[i]] = sc[i]
+                        m[i * (N + 1) + N] = rnd.randrange(-3, 4)
+                    add("layer", N, prec, "x", [m], [rnd.randrange(-3, 4) or 1 for _ in range(N)])
             if prec == 64:
                 # double coordinates over a float-valued backend, with cancellation: every partial sum is exact in double but
                 # not in float, the final value is exact in both (the layer must work in the coordinate scalar type)
